@@ -83,7 +83,30 @@ ValidateClauses(e) ==
               /\ e.valid = e.base_valid /\ e.nfail = e.base_nfail /\ e.ntested = e.base_ntested
               /\ FailSetEq(e.failset, e.base_failset)>> >>
 
+\* calls recorded from the repository's own tests: rules known by their projection only
+RuleTestProjClauses(e) ==
+  LET rule == e.proj  d == e.doc
+      copy == IF rule.cast = <<>> THEN d ELSE ApplyCasts(rule, d, d)
+      t == RuleTest(rule, copy, copy, TRUE)
+      ok == e.outcome = "ok"
+  IN << <<"NeverRaises", ~t.u => ok>>,
+        <<"TestedIffPathSelects", (~t.u /\ ok) => e.tested = t.tested>>,
+        <<"ValidIffAllSelectedSatisfy", (~t.u /\ ok) => e.valid = t.valid>>,
+        <<"NumFailuresIsLength", ok => e.nfail = Len(e.fails)>>,
+        <<"FailuresAreFailingNodes", (~t.u /\ ok) => SameFails(e.fails, t.fails)>>,
+        <<"EveryFailureHasReason", ok => \A j \in 1..Len(e.fails) : e.fails[j].nreasons >= 1 /\ e.fails[j].reasons_str>> >>
+ValidateProjClauses(e) ==
+  LET x == Validate(e.projs, e.doc, Design)  ok == e.outcome = "ok" IN
+  \* e.projs are Schema.rules, i.e. already in application order
+  << <<"NeverRaises", ~x.u => ok>>,
+     <<"ValidIsConjunction", (~x.u /\ ok) => e.valid = x.valid>>,
+     <<"FailureCountIsSum", (~x.u /\ ok) => e.nfail = x.nfail>>,
+     <<"TestedCountIsPathsExisting", (~x.u /\ ok) => e.ntested = x.ntested>>,
+     <<"CastDataExact", (~x.u /\ ok) => Same(e.cast_data, x.cast_data)>> >>
+
 Clauses(e) == CASE e.op = "ruletest" -> RuleTestClauses(e)
+                [] e.op = "ruletest_proj" -> RuleTestProjClauses(e)
+                [] e.op = "validate_proj" -> ValidateProjClauses(e)
                 [] e.op = "validate" -> ValidateClauses(e)
 
 Check == LET e == Events[i]
